@@ -191,6 +191,11 @@ func (w *World) Named(pkg, name string) *types.Named {
 	}
 	o := sp.Pkg.Scope().Lookup(name)
 	if o == nil {
+		if nn, ok := typeRenameFrom[pkg+"."+name]; ok {
+			o = sp.Pkg.Scope().Lookup(nn) // a renamed private type (inline.go)
+		}
+	}
+	if o == nil {
 		return nil
 	}
 	n, _ := o.Type().(*types.Named)
@@ -345,7 +350,7 @@ func fname(fn *ssa.Function) string {
 	}
 	s := fn.String()
 	s = strings.ReplaceAll(s, modPath+"/", "")
-	return s
+	return pinnedTypeNames(s)
 }
 
 // origin returns the generic origin of an instantiated function, or fn itself.
